@@ -94,6 +94,11 @@ def drive (body impl : String) : Verdict :=
         let chainBad := (pairs.zip (o.lastState :: pairs.map (·.2))).filter (fun (pr, prev) => pr.1 != prev)
         let f07 : List String :=
           (pairs.filter (fun pr => !legalStr pr.1 pr.2)).map (fun pr => s!"[illegal-edge] resume {ent}: reported change {pr.1} -> {pr.2} is not in the documented graph") ++
+          -- the edge Suspend -> Ready/Running exists only once the wake-up time has come (the clock is the case's input)
+          ((pairs.filter (fun pr => pr.1.startsWith "Susp(" && (pr.2 == "Running" || pr.2 == "Ready") &&
+              (match (((pr.1.drop 5).toString.replace ")" "").splitOn ",") with
+               | [_, t] => decide ((t.toNat?.getD 0) > th.now)
+               | _ => false))).map (fun pr => s!"[left-suspend-early] resume {ent} at time {th.now}: reported change {pr.1} -> {pr.2} before the wake-up time")) ++
           (if chainBad.isEmpty ∨ abn then [] else [s!"[broken-chain] resume {ent}: reported changes do not link up: {iev} after state {o.lastState}"]) ++
           (if !abn ∧ ist ≠ (pairs.getLast?.map (·.2)).getD o.lastState then [s!"[unreported-change] resume {ent}: state is {ist} but the last reported state is {(pairs.getLast?.map (·.2)).getD o.lastState}"] else []) ++
           (if o.terminal ∧ (iev ≠ "" ∨ igot ≠ "" ∨ ist ≠ o.lastState) then [s!"[terminal-left] resume {ent}: finished coroutine changed: {io}"] else []) ++
@@ -124,14 +129,18 @@ def drive (body impl : String) : Verdict :=
           | .state (.error _) => if co.state == co'.state then "terminal.again" else "error"
           | .err => "err" | .panic => "panic" | _ => "other"
         ({ d with th := th', cos := d.cos.set c co', outs := d.outs ++ [mout],
-                  fails := d.fails ++ (f07.map (("C07", ·))) ++ (f08.map (("C08", ·))) ++ (f09.map (("C09", ·))),
+                  fails := d.fails ++ (f07.map (("C07", ·))) ++ (f08.map (("C08", ·))) ++ (f09.map (("C09", ·))) ++
+                           -- C13 at the level of the coroutines that run the tasks: a cancel consumed by another coroutine
+                           ((f09.filter (·.startsWith "[foreign-cancel]")).map (("C13", ·))),
                   labels := lab :: d.labels }, obs')
     | _ => ({ d with outs := d.outs ++ ["BADOP"] }, obs)
   let outsP := outs ++ List.replicate (sched.length - outs.length) ""
   let (d, _) := (sched.zip outsP).foldl step (d0, List.replicate d0.cos.length {})
   -- C07 on the implementation's event strings: every reported change is an edge of the graph and links up
-  let props := ["C07", "C08", "C09"]
+  let props := ["C07", "C08", "C09", "C13"]
   { modelOut := joinWith " | " d.outs,
+    -- a disagreement of this component is about the coroutine itself, not about task cancellation
+    blame := some ["C07", "C08", "C09"],
     spec := props.map (fun p => let fs := d.fails.filter (·.1 == p); (p, fs.isEmpty, joinWith " ; " (fs.map (fun f => f.2)))),
     labels := d.labels.eraseDups }
 
